@@ -72,10 +72,6 @@ Definition ok (c : case) : bool :=
       && list_eqb obs_eqb (map (observe (c_events c)) heap) (c_obs c)
   end.
 
-(* the specification, executable on a finite event universe, used to label cases: a candidate assignment *)
-Definition sat_by (t : list (N * Q)) (cs : list cstr) : bool :=
-  forallb (fun c => match c with (x, y, b) => Qle_bool (getd t x - getd t y) b end) cs.
-
 (* ---------------- exhaustive trees of insertion sequences ----------------
    All sequences over a fixed alphabet of insertions up to a depth, explored depth-first; every node is obtained by
    copy_stn() of its parent followed by one add().  Each node is observed by a number (consistency flag and the
